@@ -165,16 +165,15 @@ def storeLE (buf : Bytes) (pos : Nat) (v : Nat) : Nat → Option Bytes
 The C++ has no bounds check (callers guarantee the region); the model refuses out-of-range. -/
 def writeOffset (buf : Bytes) (pos : Nat) (off : BitVec 64) (f : OffsetFormat) : Option Bytes :=
   let p := pos + f.valueOffset
-  match f.valueSize with
-  | 1 | 2 | 4 =>
+  if f.valueSize = 1 ∨ f.valueSize = 2 ∨ f.valueSize = 4 then
     match encodeOffset32 f off, loadLE buf p f.valueSize with
     | some m, some old => storeLE buf p (old ||| (m.toNat % 2 ^ (8 * f.valueSize))) f.valueSize
     | _, _ => none
-  | 8 =>
-    match encodeOffset64 f off, loadLE buf p 8 with
-    | some m, some old => storeLE buf p (old ||| m.toNat) 8
+  else if f.valueSize = 8 then
+    match encodeOffset64 f off, loadLE buf p f.valueSize with
+    | some m, some old => storeLE buf p (old ||| m.toNat) f.valueSize
     | _, _ => none
-  | _ => none
+  else none
 
 /-- the `OffsetFormat`s as the sources construct them -/
 def simpleValue (t : OffsetType) (size : Nat) : OffsetFormat :=
